@@ -2344,6 +2344,28 @@ func ruleEdgeSentCounted(c *Ctx) {
 		return false
 	}
 	n := 0
+	// a send, or a call of a helper that did not exist on the reference tree and sends (sendEvent(event, data))
+	sendsLike := func(in ssa.Instruction) bool {
+		if _, ok := isCallTo(in, send...); ok {
+			return true
+		}
+		call, ok := in.(ssa.CallInstruction)
+		if !ok {
+			return false
+		}
+		sf := call.Common().StaticCallee()
+		if sf == nil || !p.isRepoFn(sf) || p.onReferenceTree(sf) || sf.Parent() != nil {
+			return false
+		}
+		for _, h := range p.withNewHelpers(sf) {
+			for _, c2 := range callsIn(h) {
+				if _, ok := isCallTo(c2, send...); ok {
+					return true
+				}
+			}
+		}
+		return false
+	}
 	for _, nm := range []string{"(*server.Subscription).processCollectionEvent", "(*server.Subscription).processModelEvent"} {
 		fn := p.Fn(nm)
 		if fn == nil {
@@ -2368,7 +2390,7 @@ func ruleEdgeSentCounted(c *Ctx) {
 				}
 			}
 			for _, in := range instrsOf(g) {
-				if _, ok := isCallTo(in, send...); !ok {
+				if !sendsLike(in) {
 					continue
 				}
 				after := false
@@ -3074,6 +3096,9 @@ func ruleRespondOnce(c *Ctx) {
 			if _, isDefer := call.(*ssa.Defer); isDefer {
 				return nil
 			}
+			if b, isB := call.Common().Value.(*ssa.Builtin); isB && b.Name() == "close" {
+				return []Ev{{Kind: "release"}} // the handler waiting for the response is let go
+			}
 			if k := direct(call); k != "" {
 				return []Ev{{Kind: k}}
 			}
@@ -3096,6 +3121,14 @@ func ruleRespondOnce(c *Ctx) {
 			if k > 1 || countKind(path, "status") > 1 {
 				bad = "two responses on one path: " + tr.FmtPath(path)
 			}
+			if i := indexKind(path, "release"); i >= 0 {
+				for _, e := range path[i+1:] {
+					switch e.Kind {
+					case "helper", "upgrade", "status", "body":
+						bad = "the handler waiting for the response is released before the response is written (net/http finishes the exchange with an empty 200 while the worker still writes): " + tr.FmtPath(path)
+					}
+				}
+			}
 			if k == 0 && fn == serveHTTP {
 				bad = "a path of the top-level handler hands the request to nobody and writes nothing: the client gets an empty 200"
 			}
@@ -3107,5 +3140,71 @@ func ruleRespondOnce(c *Ctx) {
 	}
 	if n == 0 {
 		c.viol("server", "an HTTP exchange is answered at most once on every path", "-", "no responding function found: anchor lost")
+	}
+}
+
+// ---------------------------------------------------------------------------
+// DOM/direct-status-first (C17): for an HTTP request the access answer may
+// carry a meta status (3xx–5xx) that is the whole response. The continuations
+// of the HTTP access requests (Cache.Access with isHTTP = true) evaluate the
+// answer's grants (CanGet / CanCall) only behind IsDirectResponseStatus() ==
+// false: otherwise the request goes on to wait for (or send) the resource
+// request and answers with its outcome instead of the status the service set.
+func ruleDirectStatusFirst(c *Ctx) {
+	p := c.P
+	access := p.Method("rescache.Cache.Access")
+	isDirect := p.Method("codec.Meta.IsDirectResponseStatus")
+	var grants []*types.Func
+	for _, n := range []string{"rescache.Access.CanGet", "rescache.Access.CanCall"} {
+		if m := p.Method(n); m != nil {
+			grants = append(grants, m)
+		}
+	}
+	if access == nil || isDirect == nil || len(grants) == 0 {
+		c.undecided("(*rescache.Cache).Access", "anchor", "-", "not found")
+		return
+	}
+	notDirect := func(i *ssa.If) (bool, bool) {
+		v, neg := ssa.Value(i.Cond), false
+		if u, ok := v.(*ssa.UnOp); ok && u.Op == token.NOT {
+			v, neg = u.X, true
+		}
+		if cl, ok := v.(*ssa.Call); ok && calleeFunc(&cl.Call) == isDirect {
+			return neg, true
+		}
+		return false, false
+	}
+	n := 0
+	for _, fn := range p.Repo {
+		if fn.Parent() != nil || !inScopePkgs(fn, "server") {
+			continue
+		}
+		http := false
+		for _, call := range callsIn(fn) {
+			if _, ok := isCallTo(call, access); ok {
+				for _, a := range call.Common().Args {
+					if b, isB := constBool(a); isB && b {
+						http = true
+					}
+				}
+			}
+		}
+		if !http {
+			continue
+		}
+		for _, g := range WithClosures(fn) {
+			for _, call := range callsIn(g) {
+				if _, ok := isCallTo(call, grants...); !ok {
+					continue
+				}
+				n++
+				c.inst(1)
+				c.check(p.guardedBy(call, notDirect) != nil, fnName(g), "the grants of an HTTP access answer are evaluated only if its meta status is not the response ("+calleeName(call.Common())+")", p.InstrPos(call), "behind IsDirectResponseStatus() == false",
+					"the access answer's grants are evaluated although its meta status may be a direct response (3xx–5xx): the request goes on and is answered with the resource request's outcome, not with the status")
+			}
+		}
+	}
+	if n == 0 {
+		c.viol("(*server.wsConn).GetHTTPSubscription", "the grants of an HTTP access answer are evaluated only if its meta status is not the response", "-", "no HTTP access continuation found: anchor lost")
 	}
 }
